@@ -1,9 +1,12 @@
 #!/bin/sh
-# usage: try_mutant.sh <patch> <prop> [<prop>...]  : apply patch to /repo, run the quick checks, always undo
+# usage: try_mutant.sh <patch> <prop> [<prop>...]  : apply patch to /repo, run the quick checks, always undo (repo and evidence)
 P="$1"; shift
-git -C /repo apply "$(realpath "$P")" || { echo "patch does not apply"; exit 3; }
+if ! git -C /repo diff --quiet; then echo "refusing: /repo has uncommitted changes"; exit 4; fi
+rm -rf /tmp/evidence_save && cp -r /verif/evidence /tmp/evidence_save
+git -C /repo apply "$(realpath "$P")" || { echo "patch does not apply"; rm -rf /tmp/evidence_save; exit 3; }
 for p in "$@"; do
   ./vcheck "$p" --tier quick 2>&1 | grep -E "^(VIOLATION|ANALYSIS|KNOWN|  C[0-9]|C[0-9]+ )" | head -12
-  echo "-> $p exit=$?"
+  echo "-> $p done"
 done
 git -C /repo checkout -- .
+rm -rf /verif/evidence && mv /tmp/evidence_save /verif/evidence
